@@ -830,15 +830,30 @@ impl<B: BitmapSlice> Bytes<usize> for VolatileSlice<'_, B> {
     }
 
     fn store<T: AtomicAccess>(&self, val: T, addr: usize, order: Ordering) -> Result<()> {
-        self.get_atomic_ref::<T::A>(addr).map(|r| {
-            r.store(val.into(), order);
-            self.bitmap.mark_dirty(addr, size_of::<T>())
-        })
+        let slice = self.get_slice(addr, size_of::<T::A>())?;
+        slice.check_alignment(align_of::<T::A>())?;
+        // The access goes through a guard (rather than `get_atomic_ref`) so that memory which is
+        // only mapped on demand is mapped while it is accessed.
+        let guard = slice.ptr_guard_mut();
+
+        // SAFETY: `get_slice` checked that the range lies within this slice, the alignment was
+        // checked above, and the guard keeps the memory mapped for the duration of the access.
+        let r = unsafe { &*(guard.as_ptr() as *const T::A) };
+        r.store(val.into(), order);
+        self.bitmap.mark_dirty(addr, size_of::<T>());
+        Ok(())
     }
 
     fn load<T: AtomicAccess>(&self, addr: usize, order: Ordering) -> Result<T> {
-        self.get_atomic_ref::<T::A>(addr)
-            .map(|r| r.load(order).into())
+        let slice = self.get_slice(addr, size_of::<T::A>())?;
+        slice.check_alignment(align_of::<T::A>())?;
+        // See `store` for why a guard is used instead of `get_atomic_ref`.
+        let guard = slice.ptr_guard();
+
+        // SAFETY: `get_slice` checked that the range lies within this slice, the alignment was
+        // checked above, and the guard keeps the memory mapped for the duration of the access.
+        let r = unsafe { &*(guard.as_ptr() as *const T::A) };
+        Ok(r.load(order).into())
     }
 }
 
